@@ -45,6 +45,11 @@ type Call struct {
 	Judged       bool
 	ExpectAccept bool
 	Pair         *Call // the concurrent duplicate of this submission (exactly one of the two may be accepted)
+
+	// slow reader: after SlowAfter body bytes the client pauses for SlowPause (fake time) before reading on
+	SlowAfter int
+	SlowPause time.Duration
+	GotStatus bool // the status line and headers have arrived (set by the client goroutine)
 }
 
 func (c *Call) String() string {
@@ -88,11 +93,23 @@ type Conn struct {
 	br     *bufio.Reader
 	addr   string
 	closed bool
+
+	slowAfter int
+	slowPause time.Duration
 }
 
 // Dial opens a client connection to a simulated listener.
 func (r *Run) Dial(addr string) *Conn {
 	c, err := simnet.Dial(addr)
+	if err != nil {
+		r.Troublef("dial %s: %v", addr, err)
+	}
+	return &Conn{r: r, c: c, br: bufio.NewReaderSize(c, 16<<10), addr: addr}
+}
+
+// DialCap is Dial with a bounded receive buffer (bytes) at this end: the peer's writes block beyond it.
+func (r *Run) DialCap(addr string, recvCap int) *Conn {
+	c, err := simnet.DialCap(addr, recvCap)
 	if err != nil {
 		r.Troublef("dial %s: %v", addr, err)
 	}
@@ -130,13 +147,20 @@ func (cn *Conn) Start(who, method, path string, hdr map[string]string, body []by
 	return cn.StartPlan(who, method, path, hdr, body, 0)
 }
 
+// StartSlow is Start by a client that pauses for pause after the first after bytes of the response body.
+func (cn *Conn) StartSlow(who, method, path string, hdr map[string]string, body []byte, after int, pause time.Duration) *Call {
+	cn.slowAfter, cn.slowPause = after, pause
+	defer func() { cn.slowPause = 0 }()
+	return cn.StartPlan(who, method, path, hdr, body, 0)
+}
+
 // StartPlan is Start with a body fault plan: stallAfter>0 sends only that many
 // body bytes and then waits until Resume (send the rest) or Abort (close).
 func (cn *Conn) StartPlan(who, method, path string, hdr map[string]string, body []byte, stallAfter int) *Call {
 	r := cn.r
 	r.mu.Lock()
 	call := &Call{Seq: len(r.calls) + 1, Who: who, Method: method, Path: path, ReqHdr: hdr, ReqBody: body,
-		StartStep: r.Step, StartAt: r.Now(), StallAfter: stallAfter}
+		StartStep: r.Step, StartAt: r.Now(), StallAfter: stallAfter, SlowAfter: cn.slowAfter, SlowPause: cn.slowPause}
 	if stallAfter > 0 {
 		call.resume = make(chan bool, 1)
 	}
@@ -184,7 +208,27 @@ func (cn *Conn) StartPlan(who, method, path string, hdr map[string]string, body 
 			finish(err)
 			return
 		}
-		data, err := io.ReadAll(resp.Body)
+		r.mu.Lock()
+		call.GotStatus = true
+		call.Status = resp.StatusCode
+		r.mu.Unlock()
+		var data []byte
+		if call.SlowPause > 0 {
+			simsync.Signal()
+			head := make([]byte, call.SlowAfter)
+			n, rerr := io.ReadFull(resp.Body, head)
+			data = append(data, head[:n]...)
+			if rerr == nil {
+				time.Sleep(call.SlowPause)
+				var rest []byte
+				rest, err = io.ReadAll(resp.Body)
+				data = append(data, rest...)
+			} else if rerr != io.EOF && rerr != io.ErrUnexpectedEOF {
+				err = rerr
+			}
+		} else {
+			data, err = io.ReadAll(resp.Body)
+		}
 		resp.Body.Close()
 		r.mu.Lock()
 		call.Status = resp.StatusCode
